@@ -23,6 +23,7 @@ type Obligation struct {
 	Line     int
 	Pos      string // Go source position
 	MustFail bool   // vacuity probes: expected sat
+	small    bool
 	vc       *VC
 	// results
 	Status  string // discharged | refuted | unknown | error
@@ -54,6 +55,8 @@ type VC struct {
 	pkg      *types.Package
 	trusted  map[string]bool
 	svSorts  map[string]string
+	replayFrame *Frame
+	smallHints []string
 	heapTypes map[types.Type]string
 }
 
@@ -560,6 +563,11 @@ func (vc *VC) script(o *Obligation, logic string) string {
 	} else {
 		sb.WriteString("(assert " + o.Guard + ")\n")
 		sb.WriteString("(assert (not " + o.Goal + "))\n")
+	}
+	if o.small {
+		for _, h := range vc.smallHints {
+			sb.WriteString("(assert " + h + ")\n")
+		}
 	}
 	sb.WriteString("(check-sat)\n")
 	if len(vc.valueQ) > 0 {
